@@ -415,8 +415,12 @@ func SetNode(n int) {
 	if l := me(); l != nil {
 		raceDisable()
 		l.s.req <- &request{l: l, kind: KNode, node: n}
-		<-l.reply
+		g := <-l.reply
 		raceEnable()
+		l.free = g.free
+		if g.switched && l.s.opt.OnSwitch != nil {
+			l.s.opt.OnSwitch(g.from, g.to)
+		}
 	}
 }
 
@@ -484,9 +488,10 @@ func (s *Sched) handle(r *request) (inPlace bool) {
 		r.rord <- l.children
 		return true
 	case KNode:
+		// re-tag the task, then schedule it like any yield: the grant tells it whether the
+		// node context has to be switched before it continues
 		l.node = r.node
-		l.reply <- grant{free: l.free}
-		return true
+		l.pending = r
 	case KEnter:
 		if p := s.parentOf(l.id); p != nil {
 			l.node = p.node
